@@ -14,7 +14,7 @@ import CifModel.Lemmas.ParserDefect
 -/
 namespace CifModel
 open CifModel.Model CifModel.Model.Lexer CifModel.Model.Parser CifModel.Spec.Recovery CifModel.Spec.Grammar
-open CifModel.Gen.ErrCodes (CIF_MISSING_VALUE CIF_UNEXPECTED_VALUE CIF_DUP_ITEMNAME CIF_EMPTY_LOOP)
+open CifModel.Gen.ErrCodes (CIF_MISSING_VALUE CIF_UNEXPECTED_VALUE CIF_DUP_ITEMNAME CIF_EMPTY_LOOP CIF_NO_BLOCK_HEADER)
 
 /-- **C12_clean** — a document in which the accept-all parse finds no defect triggers no callback under any policy and is
     read identically (= C01 for the callback side) -/
@@ -137,6 +137,33 @@ theorem C12_empty_loop (o : Opts) {path : Path} {put : Container → Cif} {code 
               cif := put (.mk code fs (denoteItems o.dia o.normKey post (denoteItems o.dia o.normKey pre ls ++ [mkLoop ns []]))) }
       ∧ r.code = CIF_EMPTY_LOOP ∧ Feeds o s' rest := by
   apply empty_loop_run <;> assumption
+
+/-- **C12_no_block_header** — a whole document whose first elements `e :: es` (items, loops, save frames: any well-formed element
+    list) stand BEFORE the first data block header, followed by any well-formed data blocks `bs`: under accept-all parse_cif returns
+    CIF_OK having logged exactly one report, CIF_NO_BLOCK_HEADER, and the CIF consists of an anonymous block (empty code) holding
+    exactly what the elements denote, followed by exactly what the blocks denote. -/
+theorem C12_no_block_header (o : Opts) (e : Elem) (es : List Elem) (bs : List Block) (s : PS) (f : Nat) (w : W)
+    (hstore : o.store = true) (hmfd : o.maxFrameDepth ≠ 0) (hempty : w.cif = [])
+    (hwb : wfElems o (e :: es) [] [] = true) (hwbs : wfBlocks o bs [o.norm []] = true)
+    (hf1 : szBlocks bs + 1 ≤ f) (hf2 : szElems (e :: es) + (e :: es).length + 3 ≤ f + bs.length)
+    (hF : Feeds o s (elemsToks (e :: es) ++ (blocksToks bs ++ [(.end_, [])]))) :
+    ∃ r, parseCif o (f + bs.length + 1) s acceptAll w
+        = .ok () { log := r :: w.log, cif := denoteBlock o.dia o.normKey { code := [], body := e :: es } :: denote o.dia o.normKey bs }
+      ∧ r.code = CIF_NO_BLOCK_HEADER := by
+  obtain ⟨s1, r, h1, hr, h2⟩ := no_block_header_step o hstore hmfd e es _ s (f + bs.length) w
+    (by rw [hempty]; intro c hc; cases hc) hwb hf2 (blocks_rest_head bs) hF
+  obtain ⟨s2, h3⟩ := blocks_structure o hstore hmfd bs [o.norm []] s1 f acceptAll
+    { log := r :: w.log, cif := w.cif ++ [denoteBlock o.dia o.normKey { code := [], body := e :: es }] } hwbs
+    (by
+      intro c hc
+      rw [hempty] at hc
+      simp only [List.nil_append, List.mem_singleton] at hc
+      subst hc; simp [denoteBlock, Container.code])
+    hf1 h2
+  refine ⟨r, ?_, hr⟩
+  simp only [hempty, List.nil_append] at h1 h3
+  unfold parseCif
+  simp only [clamp, Parser.bind_eq, Parser.pure_eq, P.bind, P.pure, h1, h3, List.singleton_append]
 
 /-- the universal per-class statement (not proved): for every host, position and layout, the planted document's accept-all
     parse has the class's code first, at a line between the defect and the following token, and the documented content -/
